@@ -66,6 +66,7 @@ def check(run):
         C05.dfa(R)
         C05.loop(R)
         C05.track(R)
+        C05.route(R)             # a Ping between the fragments of a text message is not run through the text validator
     from . import C06, C15
     R.rule('C18.inflate', 'compressed messages of a burst are delivered: every fragment inflated once, the trailer fed once after '
                           'the last, the inflater configured from the negotiated server parameters', 10)
